@@ -187,7 +187,7 @@ class Module:
         self.name = name
         self.relpath = relpath  # src/mygrad/...
         self.src = src
-        self.tree = ast.parse(src)
+        self.tree = _normalise(ast.parse(src))
         self.lines = src.split("\n")
         self.symbols: Dict[str, Binding] = {}
         self.star_imports: List[str] = []
@@ -203,6 +203,36 @@ class Module:
 
     def __repr__(self):
         return f"<module {self.name}>"
+
+
+class _AnnToAssign(ast.NodeTransformer):
+    """Inside function bodies, `x: T = v` is the same statement as `x = v` for every rule: normalise it once here.
+    (Class-level and module-level annotations are kept: they carry declarations the model reads.)"""
+
+    def __init__(self):
+        self.depth = 0
+
+    def visit_FunctionDef(self, node):
+        self.depth += 1
+        self.generic_visit(node)
+        self.depth -= 1
+        return node
+
+    visit_AsyncFunctionDef = visit_FunctionDef
+
+    def visit_AnnAssign(self, node):
+        self.generic_visit(node)
+        if self.depth == 0:
+            return node
+        if node.value is None:
+            return ast.copy_location(ast.Pass(), node)
+        return ast.copy_location(ast.Assign(targets=[node.target], value=node.value, type_comment=None), node)
+
+
+def _normalise(tree: ast.AST) -> ast.AST:
+    tree = _AnnToAssign().visit(tree)
+    ast.fix_missing_locations(tree)
+    return tree
 
 
 def dotted(e: ast.AST) -> Optional[str]:
